@@ -12,11 +12,11 @@ META = {
                '{K, CODE TABLE, FLAG TABLE, NUMERIC}; three new sequences (plain, NCEP replication-only, nested with fixed replication); 7 data templates mixing new and '
                'standard descriptors and 201/202 operators; all data bits solver variables; factors 0..2',
                'protocol: definition message with 1..2 element and 0..2 sequence definitions; sign / scale / reference / width characters of the first element solver bytes over '
-               '{+,-} x {0,1} x {+,-} x {0,7}5 x {3,8,13,18} (wider alphabets in thorough); data message payload 96 solver bits; a definition message with zero subsets'],
+               '{+,-} x {0,1} x {+,-} x {0,7}5 x {3,8,13,18} (wider alphabets in thorough); data message payload 96 solver bits; a definition message with zero subsets; optionally a second definition message that redefines 0-48-001 and the first sequence'],
     'assumptions': ['oracle: FM-94 reference run over tables extended by exactly the defined entries, sequences expanded inline (which gives the NCEP replication-only sequence its meaning)',
                     'extra entries are process-global: every explored path starts with them cleared (one harness per process)',
-                    'table files are loaded natively (outside tracing) after the real invalidate / add_extra_entries in h_apply'],
-    'outside': ['definition messages that redefine entries already defined; code/flag table definitions; definition strings that denote no number'],
+                    'TableGroupCache.get (JSON loading, construction of ~1500 descriptor objects) runs natively, i.e. with tracing suspended; the real method is executed'],
+    'outside': ['code/flag table definitions; definition strings that denote no number'],
     'trusted_base': ['CrossHair 0.0.110 / z3 5.1', 'bitstring model', 'FM-94 reference', 'vlib/msgbuild.py'],
 }
 
@@ -32,16 +32,26 @@ MANIFEST = {
 def jobs(tier, seed):
     J = []
     thorough = tier == 'thorough'
-    J.append(Job('extract', 'harness.c20', 'h_extract', {'scale_len': 2, 'ref_len': 3 if thorough else 2, 'width_len': 2}, timeout=3000 if thorough else 900,
+    J.append(Job('extract', 'harness.c20', 'h_extract', {'scale_len': 2 if thorough else 1, 'ref_len': 3 if thorough else 2, 'width_len': 2}, timeout=3000 if thorough else 900,
                  witnesses=['extracted', 'not-a-number']))
     for t in range(7):
-        J.append(Job('apply:template%d' % t, 'harness.c20', 'h_apply', {'template': t, 'max_width': 32 if thorough else 12}, timeout=3000 if thorough else 900,
+        J.append(Job('apply:template%d' % t, 'harness.c20', 'h_apply', {'template': t, 'max_width': 32 if thorough else 12, 'no_missing': t in (2, 5)}, timeout=3000 if thorough else 900,
                      witnesses=['applied']))
-    J.append(Job('protocol', 'harness.c20', 'h_protocol', {'wide': thorough}, timeout=7000 if thorough else 1500,
-                 witnesses=['governed', 'replication-only-sequence']))
-    J.append(Job('protocol:empty-definition', 'harness.c20', 'h_protocol', {'empty_definition': True}, timeout=900, witnesses=['nothing-defined']))
-    J.append(Job('canary:sign', 'harness.c20', 'h_extract', {}, timeout=600, max_cex=1,
-                 mutate="pybufrkit.dataprocessor::                (1 if next_value().strip() == '+' else -1) * int(next_value().strip()),\n                int(next_value().strip()),-->>                int(next_value().strip() + next_value().strip()),\n                int(next_value().strip()),"))
+    # one exploration split into parallel jobs by the number of element / sequence definitions in the definition message
+    for n_b in (0, 1):
+        for n_d in (0, 1, 2):
+            fixed = {'n_b': n_b, 'n_d': n_d}
+            wit = ['governed'] + (['replication-only-sequence'] if n_d == 2 else [])
+            J.append(Job('protocol:b=%d,d=%d' % (n_b + 1, n_d), 'harness.c20', 'h_protocol', {'wide': thorough, 'fixed_choices': fixed},
+                         timeout=7000 if thorough else 1500, witnesses=wit))
+            J.append(Job('protocol:redefine:b=%d,d=%d' % (n_b + 1, n_d), 'harness.c20', 'h_protocol',
+                         {'narrow': not thorough, 'redefine': True, 'fixed_choices': fixed}, timeout=7000 if thorough else 1500,
+                         witnesses=wit + ['redefined']))
+    J.append(Job('protocol:missing-values', 'harness.c20', 'h_protocol', {'narrow': True, 'with_missing': True, 'fixed_choices': {'n_b': 1, 'n_d': 1}},
+                 timeout=1500, witnesses=['governed']))
+    J.append(Job('protocol:empty-definition', 'harness.c20', 'h_protocol', {'empty_definition': True, 'narrow': True}, timeout=900, witnesses=['nothing-defined']))
+    J.append(Job('canary:sign', 'harness.c20', 'h_extract', {'scale_len': 1, 'ref_len': 1, 'width_len': 1}, timeout=600, max_cex=1,
+                 mutate="pybufrkit.dataprocessor::                (1 if next_value().strip() == '+' else -1) * int(next_value().strip()),\n                int(next_value().strip()),-->>                (1 if next_value().strip() != '' else -1) * int(next_value().strip()),\n                int(next_value().strip()),"))
     J.append(Job('canary:no-invalidate', 'harness.c20', 'h_protocol', {}, timeout=600, max_cex=1,
                  mutate="pybufrkit.decoder::                    TableGroupCacheManager.invalidate()\n-->>"))
     J.append(Job('canary:ncep-fix', 'harness.c20', 'h_apply', {'template': 2, 'max_width': 4}, timeout=600, max_cex=1,
